@@ -85,7 +85,7 @@ func backlogCase(c *h.Case, k int) {
 	for ; sent < 20000 && time.Duration(h.Now()-start) < 40*time.Second; sent++ {
 		_ = conn.SetWriteDeadline(time.Now().Add(1200 * time.Millisecond))
 		var m msg.Message = &msg.NewProxy{ProxyName: fmt.Sprintf("%s%s-%d", pfx, name, sent), ProxyType: "no-such-type"}
-		if sent%100 == 99 {
+		if sent%25 == 24 {
 			ts := time.Now().Unix()
 			m = &msg.Ping{Timestamp: ts, PrivilegeKey: h.AuthKey(token, ts)}
 		}
